@@ -384,6 +384,18 @@ func cmdCheck(args []string) {
 		"explanation":              "obligations are generated from the SSA of /repo's current sources and the //@ contracts in verif_contracts*.go; each is one SMT query; discharged = unsat",
 	}
 	ev.Assumptions = append(append([]string{}, globalAssumptions...), tl...)
+	seenA := map[string]bool{}
+	for _, a := range ev.Assumptions {
+		seenA[a] = true
+	}
+	for _, n := range nl {
+		// notes of the run that name something taken on trust: assumed (trusted) contracts and frames, run-time checks assumed
+		// to pass (nosafe), uninterpreted external functions, definitional assumptions about spec functions
+		if (strings.Contains(n, "assumed") || strings.HasPrefix(n, "ASSUMED") || strings.Contains(n, "uninterpreted") || strings.HasPrefix(n, "definitional")) && !seenA[n] {
+			seenA[n] = true
+			ev.Assumptions = append(ev.Assumptions, n)
+		}
+	}
 	if len(skippedArity) > 0 {
 		ev.Coverage["not_run_in_this_tier"] = fmt.Sprintf("%d contracts of generated generic helpers with arity > %d (instances of the same templates) are only checked by the thorough tier", len(skippedArity), quickMaxArity)
 	}
